@@ -94,7 +94,7 @@ fn build(ch: &mut Chooser, g: &G, ka: usize, kb: usize) -> (OBook, Grid, serde_j
     }
     let desc = json!({"grid": g, "A": ks[ka].0, "B": ks[kb].0,
         "rows": rows.iter().map(|r| json!({"repeat": r.repeat, "cells": r.cells.iter().map(|(c, n)| format!("{}{}x{}", if c.covered { "cov:" } else { "" }, match &c.val { OVal::Empty => "E".to_string(), v if *v == ks[ka].1 => "A".into(), _ => "B".into() }, n)).collect::<Vec<_>>()})).collect::<Vec<_>>()});
-    let book = OBook { sheets: vec![OSheet { name: "S".into(), rows, display: None }], ..Default::default() };
+    let book = OBook { sheets: vec![OSheet { name: "S".into(), rows, display: None }], indent: ch.flag("document-indented"), ..Default::default() };
     (book, grid, desc)
 }
 
